@@ -12,10 +12,13 @@ import (
 	"time"
 
 	"go.uber.org/zap"
+	"go.uber.org/zap/zapcore"
+	"go.uber.org/zap/zaptest/observer"
 
 	"go.opentelemetry.io/collector/component"
 	"go.opentelemetry.io/collector/component/componentstatus"
 	"go.opentelemetry.io/collector/component/componenttest"
+	"go.opentelemetry.io/collector/config/configtelemetry"
 	"go.opentelemetry.io/collector/connector"
 	"go.opentelemetry.io/collector/exporter"
 	"go.opentelemetry.io/collector/extension"
@@ -25,10 +28,12 @@ import (
 	"go.opentelemetry.io/collector/processor/memorylimiterprocessor"
 	"go.opentelemetry.io/collector/receiver"
 	"go.opentelemetry.io/collector/receiver/otlpreceiver"
+	"go.opentelemetry.io/collector/service"
 	"go.opentelemetry.io/collector/service/extensions"
 	"go.opentelemetry.io/collector/service/internal/builders"
 	"go.opentelemetry.io/collector/service/internal/graph"
 	"go.opentelemetry.io/collector/service/pipelines"
+	svctel "go.opentelemetry.io/collector/service/telemetry"
 )
 
 // PipeCfg / ConnCfg / Config mirror the JSON printed by CompTelGen (configuration part) plus what checks/E13.py adds.
@@ -50,6 +55,9 @@ type Config struct {
 	Conns []ConnCfg `json:"conns"`
 	Exts  []string  `json:"exts"`
 	Stack string    `json:"stack"`
+	// Svc: build the same configuration through the public service.New / Start / Shutdown (logs only: the service's
+	// own providers have no in-memory reader)
+	Svc bool `json:"svc"`
 	// Drop: component id -> attribute keys its (test) factory removes with telemetry.WithoutAttributes, the way the
 	// otlp receiver / memory_limiter processor do for instances they unify
 	Drop map[string][]string `json:"drop"`
@@ -284,6 +292,48 @@ func runGraph(i int, line []byte, seed int64, _ bool) (obs GraphObs, err error) 
 
 	ctx := context.Background()
 	info := component.NewDefaultBuildInfo()
+	if cfg.Svc {
+		sk.close()
+		obsCore, logs := observer.New(zapcore.DebugLevel)
+		sk = &sinks{stack: cfg.Stack, logs: logs}
+		base := obsCore.With(baseFields)
+		scfg := service.Config{
+			Telemetry: svctel.Config{
+				Logs:    svctel.LogsConfig{Level: zapcore.DebugLevel, Encoding: "json", DisableCaller: true, DisableStacktrace: true},
+				Metrics: svctel.MetricsConfig{Level: configtelemetry.LevelNone},
+			},
+			Extensions: extensions.Config(ids(shuffled(rng, cfg.Exts))),
+			Pipelines:  pipes,
+		}
+		if cfg.Stack == "sampled" {
+			scfg.Telemetry.Logs.Sampling = &svctel.LogsSamplingConfig{Enabled: true, Tick: 10 * time.Second, Initial: 1000000, Thereafter: 1}
+		}
+		srv, nerr := service.New(ctx, service.Settings{
+			BuildInfo:        info,
+			ReceiversConfigs: rcvCfg, ReceiversFactories: rcvFac,
+			ProcessorsConfigs: procCfg, ProcessorsFactories: procFac,
+			ExportersConfigs: expCfg, ExportersFactories: expFac,
+			ConnectorsConfigs: connCfg, ConnectorsFactories: connFac,
+			ExtensionsConfigs: extCfg, ExtensionsFactories: extFac,
+			AsyncErrorChannel: make(chan error, 8),
+			LoggingOptions:    []zap.Option{zap.WrapCore(func(zapcore.Core) zapcore.Core { return base })},
+		}, scfg)
+		if nerr != nil {
+			obs.BuildErr = sptr(nerr.Error())
+			return obs, nil
+		}
+		if serr := srv.Start(ctx); serr != nil {
+			panic("service.Start: " + serr.Error())
+		}
+		w.mu.Lock()
+		views := append([]*View(nil), w.views...)
+		w.mu.Unlock()
+		for _, v := range views {
+			w.probe(v, "late")
+		}
+		_ = srv.Shutdown(ctx)
+		return finishGraph(&obs, w, sk, true)
+	}
 	buildExts := func() *extensions.Extensions {
 		exts, xerr := extensions.New(ctx, extensions.Settings{Telemetry: root, BuildInfo: info, Extensions: builders.NewExtension(extCfg, extFac)},
 			extensions.Config(ids(shuffled(rng, cfg.Exts))))
@@ -329,7 +379,12 @@ func runGraph(i int, line []byte, seed int64, _ bool) (obs GraphObs, err error) 
 		w.probe(v, "late")
 	}
 	_ = exts.Shutdown(ctx)
+	return finishGraph(&obs, w, sk, false)
+}
 
+// finishGraph attributes everything that reached a sink to the views.
+func finishGraph(op *GraphObs, w *world, sk *sinks, logsOnly bool) (GraphObs, error) {
+	obs := *op
 	all, cerr := sk.collect()
 	if cerr != nil {
 		return obs, cerr
@@ -410,8 +465,14 @@ func runGraph(i int, line []byte, seed int64, _ bool) (obs GraphObs, err error) 
 		switch parts[2] {
 		case "span", "spanown":
 			sinksOf = []string{"span"}
+			if logsOnly {
+				sinksOf = nil
+			}
 		case "metric", "metricown":
 			sinksOf = []string{"metric"}
+			if logsOnly {
+				sinksOf = nil
+			}
 		default:
 			if sk.otel != nil && parts[2] != "debug" {
 				sinksOf = append(sinksOf, "otel")
